@@ -299,6 +299,14 @@ func (db *DB) ReleaseHaltLock(ctx context.Context, id int64) {
 		return // not the current lock
 	}
 
+	// Wait for a forwarded transaction that is being applied under the lock.
+	inUse := curr.inUse.Guard()
+	if err := inUse.Lock(ctx); err != nil {
+		TraceLog.Printf("[ReleaseHaltLock.Done(%s)]: %s", db.name, errorKeyValue(err))
+		return
+	}
+	defer inUse.Unlock()
+
 	// Remove as the current halt lock. Ignore the swapped return since that
 	// just means that a concurrent release already took care of it.
 	db.haltLockAndGuard.CompareAndSwap(curr, (*haltLockAndGuard)(nil))
@@ -317,6 +325,14 @@ func (db *DB) EnforceHaltLockExpiration(ctx context.Context) {
 	} else if curr.haltLock.Expires == nil || curr.haltLock.Expires.After(time.Now()) {
 		return
 	}
+
+	// A forwarded transaction is being applied under the lock: look again on
+	// the next round.
+	inUse := curr.inUse.Guard()
+	if !inUse.TryLock() {
+		return
+	}
+	defer inUse.Unlock()
 
 	TraceLog.Printf("[ExpireHaltLock(%s)]: id=%d", db.name, curr.haltLock.ID)
 
@@ -470,6 +486,25 @@ func (db *DB) WaitPosExact(ctx context.Context, target ltx.Pos) error {
 			return nil
 		}
 	}
+}
+
+// PinHaltLock keeps the halt lock with the given identifier from being
+// released or expired until the returned function is called. Returns nil if
+// that lock is not held. Used while a transaction forwarded by the lock holder
+// is written and applied.
+func (db *DB) PinHaltLock(id int64) (unpin func()) {
+	curr := db.haltLockAndGuard.Load().(*haltLockAndGuard)
+	if curr == nil || id == 0 || curr.haltLock.ID != id {
+		return nil
+	}
+	inUse := curr.inUse.Guard()
+	if !inUse.TryRLock() {
+		return nil // being released
+	} else if db.haltLockAndGuard.Load().(*haltLockAndGuard) != curr {
+		inUse.Unlock()
+		return nil // released in the meantime
+	}
+	return inUse.Unlock
 }
 
 // HoldsHaltLock returns true if the halt lock with the given identifier is
@@ -4051,6 +4086,10 @@ type HaltLock struct {
 type haltLockAndGuard struct {
 	haltLock *HaltLock
 	guardSet *GuardSet
+
+	// Held shared while a transaction forwarded by the lock holder is written
+	// and applied, exclusively while the lock is released or expired.
+	inUse RWMutex
 }
 
 // ChecksumBlockSize is the number of pages that are grouped into a single checksum block.
